@@ -368,8 +368,12 @@ func (txn *Txn) checkSize(e *Entry) error {
 }
 
 func exceedsSize(prefix string, max int64, key []byte) error {
+	head := key
+	if len(head) > 1<<10 {
+		head = head[:1<<10]
+	}
 	return fmt.Errorf("%s with size %d exceeded %d limit. %s:\n%s",
-		prefix, len(key), max, prefix, hex.Dump(key[:1<<10]))
+		prefix, len(key), max, prefix, hex.Dump(head))
 }
 
 func (txn *Txn) modify(e *Entry) error {
